@@ -46,6 +46,10 @@ def fs_fields(eng, st, obj, L):
 
 def invariants(eng, st, func, obj='this'):
     L = capacity(func.cls)
+    if obj != 'this':
+        for q in func.params:
+            if q['name'] == obj:
+                L = capacity(btype(q['t'].rstrip('&').strip()))
     if L is None:
         return []
     ln, region = fs_fields(eng, st, obj, L)
@@ -144,6 +148,8 @@ def m_vsnprintf(eng, n, st, func, want):
     for (buf, size), s1 in _ev_all(eng, args[:2], st, func):
         if isinstance(size, Lin):
             eng.access(s1, buf, size, 'vsnprintf destination', n, func, write=True)
+            if isinstance(buf, Ptr):
+                eng.log_write(s1, ('opaque', buf, size, 'vsnprintf'))
             r = eng.fresh('vsnprintf', s1, 'int')
             if isinstance(buf, Ptr):
                 # a terminator is written inside [buf, buf+size) when size > 0: at min( r, size-1)
@@ -251,7 +257,19 @@ def run(chk):
                         st.assume(le(st.vars['idx'], ln))
                     eng.analyse(f, pre)
                 else:
-                    eng.analyse(f)
+                    finals = eng.analyse(f)
+                    # a fixed string passed by non-const reference (swap) must be well-formed afterwards too
+                    for q in f.params:
+                        if capacity(btype(q['t'].rstrip('&').strip())) is not None and \
+                                not q['t'].startswith('const ') and q['t'].rstrip().endswith('&') and \
+                                not q['t'].rstrip().endswith('&&'):
+                            for s_ in finals:
+                                if s_.status not in ('normal', 'return'):
+                                    continue
+                                for desc, goals, post in invariants(eng, s_, f, q['name']):
+                                    eng.oblige(s_, goals, 'invariant', '%s of argument %s at exit' % (
+                                        desc, q['name']), None, f)
+                                    post(eng, s_, ('check', 'of argument %s at exit' % q['name'], None, f))
             except RecursionError:
                 chk.notes.append('recursion limit in %s' % f.key)
             total += 1
